@@ -3,12 +3,13 @@ from . import common as C
 from . import wire as W
 from . import sockcheck as S
 from .c09 import scen_parse
+from . import chaincases
 
 PID = "C15"
 RULE = ("the real proxy() spawned between real ROUTER/DEALER (and DEALER/DEALER, ROUTER/ROUTER) sockets with 1-3 scripted REQ-like clients and 1-3 "
         "scripted REP-like workers on in-memory connections, optionally a PUSH capture socket; payload shapes from the C07 grid; arrivals on both sides "
         "queued before the proxy runs (both branches ready in the same poll) or interleaved; segmented feeds; observation = bytes on every connection "
-        "and on the capture connection; exactly-once as multisets, order per (sender, receiver) pair and per sender on the capture connection; distinct = distinct scenario; non-trivial = traffic in both directions or >= 2 peers on a side")
+        "and on the capture connection; plus the real chain on the real runtime (1-4 real REQ clients with set identities, real proxy(ROUTER, DEALER[, capture]), 1-3 real REP workers over TCP/IPC, random request/recv schedules with out-of-turn calls; every client must get 07 ++ its own request back); exactly-once as multisets, order per (sender, receiver) pair and per sender on the capture connection; distinct = distinct scenario; non-trivial = traffic in both directions or >= 2 peers on a side")
 
 
 def payload(rng, tag):
@@ -67,10 +68,14 @@ def cases(tier, rng):
         ops.append("status")
         out.append("p%d proxy %s %s%s / %s" % (k, pair[0], pair[1], " cap" if cap else "", " / ".join(ops)))
         k += 1
+    # the real REQ - ROUTER/DEALER proxy - REP chain on the real runtime (second sentence of the property)
+    out += chaincases.cases(tier, rng, k)
     return out
 
 
 def canon(obs, line=None):
+    if obs is None:
+        return obs
     toks = []
     for tk in obs.split():
         if tk.startswith("cwire=") and not tk.endswith("=-"):
@@ -85,6 +90,8 @@ norm_model = canon
 
 
 def judge(line, obs, orc):
+    if line.split()[1] == "chain":
+        return chaincases.judge(line, obs)
     if S.bad_obs(obs):
         return "implementation " + str(obs)[:80]
     raw_obs = obs
@@ -171,8 +178,10 @@ def judge(line, obs, orc):
 
 
 def nontrivial(line):
+    if line.split()[1] == "chain":
+        return int(line.split()[2]) >= 2 or int(line.split()[3]) >= 2
     return "bfeed" in line and "ffeed" in line
 
 
 def classify(line, what):
-    return "c15-proxy"
+    return "c15-chain" if line.split()[1] == "chain" else "c15-proxy"
